@@ -184,9 +184,9 @@ theorem qubitCheck_total {src idx : Val} (hs : RegT src = true ∨ isParam src =
   simp only [h0, Bool.false_eq_true, if_false, pure_bind] at h
   by_cases hav : (isAV idx || isAV src) = true
   · simp only [hav, if_true] at h
-    by_cases c1 : (!(idx.isNum || isAV idx)) = true
-    · simp [c1, throw_eq, bind, Except.bind] at h; rw [← h]; exact Good.jaqal _
-    simp only [c1, Bool.false_eq_true, if_false, pure_bind] at h
+    by_cases c1 : (!(idx.isNum || isAV idx) || isFractional idx) = true
+    · rw [if_pos c1] at h; simp [throw_eq, bind, Except.bind] at h; rw [← h]; exact Good.jaqal _
+    rw [if_neg c1] at h
     by_cases c2 : (isAV idx && !kindIntOrNone (avKind idx)) = true
     · simp [c2, throw_eq, bind, Except.bind] at h; rw [← h]; exact Good.jaqal _
     simp only [c2, Bool.false_eq_true, if_false, pure_bind] at h
@@ -211,8 +211,8 @@ theorem qubitCheck_ok_numOrAV {src idx : Val} (h : qubitCheck src idx = .ok ()) 
   simp only [h0, Bool.false_eq_true, if_false, pure_bind] at h
   by_cases hav : (isAV idx || isAV src) = true
   · simp only [hav, if_true] at h
-    by_cases c1 : (!(idx.isNum || isAV idx)) = true
-    · simp [c1, throw_eq, bind, Except.bind] at h
+    by_cases c1 : (!(idx.isNum || isAV idx) || isFractional idx) = true
+    · rw [if_pos c1] at h; simp [throw_eq, bind, Except.bind] at h
     · cases hn : idx.isNum <;> cases ha : isAV idx <;> simp [hn, ha] at c1 ⊢
   · simp only [hav, Bool.false_eq_true, if_false] at h
     obtain ⟨u, hu, _⟩ := bind_ok h
@@ -229,9 +229,9 @@ theorem qubitCheck_ok_intC {src idx : Val} (h : qubitCheck src idx = .ok ())
     simp only [h0, Bool.false_eq_true, if_false, pure_bind] at h
     by_cases hav : (isAV idx || isAV src) = true
     · simp only [hav, if_true] at h
-      by_cases c1 : (!(idx.isNum || isAV idx)) = true
-      · simp [c1, throw_eq, bind, Except.bind] at h
-      simp only [c1, Bool.false_eq_true, if_false, pure_bind] at h
+      by_cases c1 : (!(idx.isNum || isAV idx) || isFractional idx) = true
+      · rw [if_pos c1] at h; simp [throw_eq, bind, Except.bind] at h
+      rw [if_neg c1] at h
       by_cases c2 : (isAV idx && !kindIntOrNone (avKind idx)) = true
       · simp [c2, throw_eq, bind, Except.bind] at h
       · -- a constant of integer kind
@@ -242,7 +242,7 @@ theorem qubitCheck_ok_intC {src idx : Val} (h : qubitCheck src idx = .ok ())
           · simp [isAV, avKind, GateDef.constKind, kindIntOrNone] at c2
         | param n k => simp [isParam] at hp
         | int i => rfl
-        | _ => simp [ValT, RegT, Val.isNum, isAV] at hv c1
+        | _ => simp [ValT, RegT, Val.isNum, isAV, isFractional] at hv c1
     · simp only [hav, Bool.false_eq_true, if_false] at h
       obtain ⟨u, hu, _⟩ := bind_ok h
       have := indexIntegralCheck_ok (by cases u; exact hu)
@@ -250,15 +250,11 @@ theorem qubitCheck_ok_intC {src idx : Val} (h : qubitCheck src idx = .ok ())
 
 theorem pyRangeArg_int (i : Int) : pyRangeArg (.int i) = .ok i := rfl
 
-theorem sliceKnownCheck_total {src : Val} {a b s : Int} (hsrc : RegT src = true) :
+theorem sliceKnownCheck_total {src : Val} {a b s : Int} (hsrc : RegT src = true) (hs0 : s ≠ 0) :
     Total (sliceKnownCheck src (.int a) (.int b) (.int s)) := by
   intro e h
   unfold sliceKnownCheck at h
-  by_cases hz : pyEq0 (.int s) = true
-  · simp [hz, throw_eq, bind, Except.bind] at h; rw [← h]; exact Good.jaqal _
-  have hs0 : s ≠ 0 := by
-    intro hs; subst hs; simp [pyEq0, Val.toNum?, Num.veq] at hz
-  simp only [hz, Bool.false_eq_true, if_false, pure_bind, pyLt_int, bind, Except.bind, pure, Except.pure] at h
+  simp only [pyLt_int, bind, Except.bind, pure, Except.pure] at h
   by_cases ha : a < 0
   · simp [ha, throw_eq] at h; rw [← h]; exact Good.jaqal _
   simp only [ha, decide_false, Bool.false_eq_true, if_false] at h
@@ -293,6 +289,9 @@ theorem sliceCheck_total {src start stop step : Val} (hs : RegT src = true ∨ i
   by_cases c0 : (!((isIntLit start || isAV start) && (isIntLit stop || isAV stop) && (isIntLit step || isAV step))) = true
   · simp [c0, throw_eq, bind, Except.bind] at h; rw [← h]; exact Good.jaqal _
   simp only [c0, Bool.false_eq_true, if_false, pure_bind] at h
+  by_cases cz : (isIntLit step && pyEq0 step) = true
+  · simp [cz, throw_eq, bind, Except.bind] at h; rw [← h]; exact Good.jaqal _
+  simp only [cz, Bool.false_eq_true, if_false, pure_bind] at h
   by_cases hav : (isAV start || isAV stop || isAV step || isAV src) = true
   · simp only [hav, if_true] at h
     by_cases c1 : (isAV start && !kindIntOrNone (avKind start)) = true
@@ -320,7 +319,10 @@ theorem sliceCheck_total {src start stop step : Val} (hs : RegT src = true ∨ i
     cases start <;> simp [isIntLit] at c0
     cases stop <;> simp [isIntLit] at c0
     cases step <;> simp [isIntLit] at c0
-    exact sliceKnownCheck_total hsrc e h
+    rename_i a b sv
+    have hs0 : sv ≠ 0 := by
+      intro hz; subst hz; simp [isIntLit, pyEq0, Val.toNum?, Num.veq] at cz
+    exact sliceKnownCheck_total hsrc hs0 e h
 
 /-- the bounds of an accepted slice in a header context are ints or integer constants -/
 theorem sliceCheck_ok_intC {src start stop step : Val} (h : sliceCheck src start stop step = .ok ())
@@ -338,6 +340,9 @@ theorem sliceCheck_ok_intC {src start stop step : Val} (h : sliceCheck src start
     · exact c0.1.1
     · exact c0.1.2
     · exact c0.2
+  by_cases cz : (isIntLit step && pyEq0 step) = true
+  · simp [cz, throw_eq, bind, Except.bind] at h
+  simp only [cz, Bool.false_eq_true, if_false, pure_bind] at h
   have key : ∀ v, (v = start ∨ v = stop ∨ v = step) → isParam v = false →
       (isAV v = true → kindIntOrNone (avKind v) = true) → isIntC v = true := by
     intro v hvv hpv hk
@@ -625,6 +630,7 @@ theorem valStep_register {ctx : Ctx} (ht : TopT ctx) {f : Nat} {n : String} {siz
   | error e => exact ⟨fun e' h => by cases h; exact hti _ hb, fun v hv => by cases hv⟩
   | ok sz =>
     simp only [bind, Except.bind]
+    rw [asIntegerV_idx ht.ctxT (hoki sz hb)]
     exact ⟨mkRegister_total n sz, fun v hv => mkRegister_ok_typed hv ((hoki sz hb).top ht)⟩
 
 theorem valStep_let {ctx : Ctx} {f : Nat} {n : String} {value : BSx}
@@ -649,15 +655,15 @@ theorem map_reduce {get : String → Option Val} {rec : BSx → M Val} (name src
         | [idxE] => do
           let n ← strOf name
           let idx ← rec idxE
-          mkQubit n src idx
+          mkQubit n src (asIntegerV idx)
         | [startE, stopE, stepE] => do
           let n ← strOf name
           let start0 ← rec startE
-          let start := if start0 == .none then .int 0 else start0
+          let start := if asIntegerV start0 == .none then .int 0 else asIntegerV start0
           let stop0 ← rec stopE
-          let stop ← defaultStop src stop0
+          let stop ← defaultStop src (asIntegerV stop0)
           let step0 ← rec stepE
-          let step := if step0 == .none then .int 1 else step0
+          let step := if asIntegerV step0 == .none then .int 1 else asIntegerV step0
           mkSlice n src start stop step
         | _ => throw (.jaqal "map-wrong-number-of-arguments")) := by
   simp only [valStep, show ("map" = "register") = False from by decide, show ("map" = "let") = False from by decide,
@@ -690,6 +696,7 @@ theorem valStep_map2 {ctx : Ctx} (ht : TopT ctx) {f : Nat} {n s : String} {idxE 
     | error e => exact ⟨fun e' h => by cases h; exact hti _ hb, fun v hv => by cases hv⟩
     | ok idx =>
       simp only []
+      rw [asIntegerV_idx ht.ctxT (hoki idx hb)]
       have hidx := (hoki idx hb).top ht
       refine ⟨?_, ?_⟩
       · unfold mkQubit
@@ -760,6 +767,12 @@ theorem valStep_map3 {ctx : Ctx} (ht : TopT ctx) {f : Nat} {n s : String} {a b c
       | error e => exact ⟨fun e' h => by cases h; exact htb _ hrb, fun v hv => by cases hv⟩
       | ok vb =>
         simp only []
+        have hasI : ∀ w, (w = Val.none ∨ IdxOK ctx w) → asIntegerV w = w := by
+          intro w hw
+          rcases hw with rfl | hw
+          · rfl
+          · exact asIntegerV_idx ht.ctxT hw
+        rw [hasI va (hoka va hra), hasI vb (hokb vb hrb)]
         -- the start and the stop after defaulting
         have hstart : TopVal ctx (if (va == Val.none) = true then Val.int 0 else va) := by
           rcases hoka va hra with rfl | h
@@ -795,6 +808,7 @@ theorem valStep_map3 {ctx : Ctx} (ht : TopT ctx) {f : Nat} {n s : String} {a b c
           | error e => exact ⟨fun e' h => by cases h; exact htc _ hrc, fun v hv => by cases hv⟩
           | ok vc =>
             simp only []
+            rw [hasI vc (hokc vc hrc)]
             have hstep : TopVal ctx (if (vc == Val.none) = true then Val.int 1 else vc) := by
               rcases hokc vc hrc with rfl | h
               · exact Or.inl ⟨1, rfl⟩
@@ -1072,6 +1086,13 @@ theorem buildGate_spost {cfg : Config} {mode : KeyMode} {ctx : Ctx} (hc : CtxT c
     {gargs : List BSx} (hg : ∀ a ∈ gargs, isGateArg a = true) (hd : BSx.depthList gargs ≤ f) (st : St) :
     Total (buildGate cfg mode ctx (buildVal ctx f) (.str name :: gargs) st) := by
   simp only [buildGate]
+  refine Total.bind ?_ (fun _ _ => ?_)
+  · unfold nestingCheck
+    split
+    · exact Total.throw _
+    · exact Total.pure _
+  unfold buildGateMemo
+  simp only []
   cases (if mode = KeyMode.off then Option.none else Memo.find mode.numByValue st.memo (mkKey mode ctx name gargs)) with
   | some g => exact Total.pure _
   | none =>
